@@ -98,7 +98,7 @@ def run(v, tier, seed):
     v.cov.update({"evaluations": len(lines), "distinct_nontrivial": len(nontrivial), "disagreements": diffs, "accepted_pairs": accepted, "keys_checked": checked_keys,
                   "rule": f"pattern_matches(granted, requested) of the real code vs the model for every pair of patterns over {{a,b,?,#}} up to depth {depth} ({len(pats)}^2 pairs, exhaustive) + sampled pairs with empty/unicode segments to depth 5; for every accepted pair with a well-formed grant a brute-force containment check over all keys over {{a,b,c}} up to depth 5 under the three matching relations; authorize() for random grant sets x privilege x request; non-trivial = accepted pair with a pattern of more than one segment",
                   "samples": samples, "exhaustive": True, **tstats,
-                  "request_table_rule": "a real in-process server with authorization required, one session per grant set (only read / only write / only delete on a/#, a parent-only read grant, a children-only read grant, nothing), every request kind sent once on keys and patterns under a/: each answer must be Unauthorized exactly when the privilege the documentation assigns to the kind (ls: read on <parent>/?) is not granted, and all messages are compared with the session model; four sessions presenting an expired token, a token signed with another key, an unsigned token (alg none) and garbage, and sessions sending a request before any token: each is ended without being served; the same over the REST front end (Model/Rest.v): every endpoint (get, pget, ls, set, publish, delete, pdelete, export, import) under eight grant sets, and without a token / with a garbage, expired or forged token (401 resp. 403, nothing served)",
+                  "request_table_rule": "a real in-process server with authorization required, one session per grant set (only read / only write / only delete on a/#, a parent-only read grant, a children-only read grant, nothing), every request kind sent once on keys and patterns under a/: each answer must be Unauthorized exactly when the privilege the documentation assigns to the kind (ls: read on <parent>/?) is not granted, and all messages are compared with the session model; four sessions presenting an expired token, a token signed with another key, an unsigned token (alg none) and garbage, and sessions sending a request before any token: each is ended without being served; the same over the REST front end (Model/Rest.v): every endpoint (get, pget, ls, set, publish, delete, pdelete, export, import) under eleven grant sets, and without a token / with a garbage, expired or forged token (401 resp. 403, nothing served)",
                   "not_covered_here": "token validation (jsonwebtoken: signature, expiry) is the library's; random request sequences with authorization are part of C13"})
 
 KIND_PRIV = {"get": "read", "cGet": "read", "subscribe": "read", "pGet": "read", "pSubscribe": "read", "ls": "read", "pLs": "read", "subscribeLs": "read",
